@@ -28,6 +28,8 @@ func checkC18(p *Prog, r *Report) {
 	ruleResourceCaps(p, a, r, "R-C18-CAP")
 	ruleC18PadMeasure(p, a, r)
 	ruleC18FloatDiv(p, a, r)
+	ruleC18FloatToInt(p, a, r)
+	ruleC18ArgByValue(p, a, r)
 }
 
 type unit int
@@ -343,16 +345,13 @@ func ruleC18Round(p *Prog, a *Anchors, r *Report) {
 	found := false
 	for _, b := range f.Blocks {
 		for _, in := range b.Instrs {
-			cv, ok := in.(*ssa.Convert)
-			if !ok || !isFloatType(cv.X.Type()) {
-				continue
-			}
-			if bt, ok := cv.Type().Underlying().(*types.Basic); !ok || bt.Info()&types.IsInteger == 0 {
+			cvX, ok := floatToIntOperand(p, in)
+			if !ok {
 				continue
 			}
 			found = true
 			key := "widthratio:rounding"
-			c, isCall := cv.X.(*ssa.Call)
+			c, isCall := cvX.(*ssa.Call)
 			name := ""
 			if isCall && c.Common().StaticCallee() != nil {
 				name = p.extName(c.Common().StaticCallee())
@@ -372,11 +371,11 @@ func ruleC18Round(p *Prog, a *Anchors, r *Report) {
 			case "math.Ceil":
 				r.Bad(key, p.InstrPos(in), "math.Ceil(…) maps every exact integer ratio n to n+1 (or rounds everything up): not the documented value")
 			default:
-				if bo, ok := cv.X.(*ssa.BinOp); ok && bo.Op == token.ADD && isHalf(bo.Y) {
+				if bo, ok := cvX.(*ssa.BinOp); ok && bo.Op == token.ADD && isHalf(bo.Y) {
 					ratio = bo.X
 					r.OK(key, p.InstrPos(in), "int(x + 0.5) for non-negative x")
 				} else {
-					r.Bad(key, p.InstrPos(in), "the ratio is converted with %s, which truncates instead of rounding to nearest", p.VN(cv.X))
+					r.Bad(key, p.InstrPos(in), "the ratio is converted with %s, which truncates instead of rounding to nearest", p.VN(cvX))
 				}
 			}
 			if ratio != nil {
@@ -961,13 +960,8 @@ func ruleC18FloatDiv(p *Prog, a *Anchors, r *Report) {
 	for _, f := range p.inPkgFuncsSorted(a.ExecReach()) {
 		for _, b := range f.Blocks {
 			for _, in := range b.Instrs {
-				cv, ok := in.(*ssa.Convert)
+				cvX, ok := floatToIntOperand(p, in)
 				if !ok {
-					continue
-				}
-				tb, _ := cv.Type().Underlying().(*types.Basic)
-				fb, _ := cv.X.Type().Underlying().(*types.Basic)
-				if tb == nil || fb == nil || tb.Info()&types.IsInteger == 0 || fb.Info()&types.IsFloat == 0 {
 					continue
 				}
 				// find float quotients feeding the conversion
@@ -996,7 +990,7 @@ func ruleC18FloatDiv(p *Prog, a *Anchors, r *Report) {
 						walk(x.X, d+1)
 					}
 				}
-				walk(cv.X, 0)
+				walk(cvX, 0)
 				for _, q := range quos {
 					n++
 					key := p.FuncName(f) + ":int(float/…)"
@@ -1021,5 +1015,202 @@ func ruleC18FloatDiv(p *Prog, a *Anchors, r *Report) {
 	}
 	if n == 0 {
 		r.Bad("none", "-", "no float division converted to an integer found (widthratio has one): the rule no longer sees the code it was written for")
+	}
+}
+
+// ruleC18FloatToInt: "for all arguments, including … huge and out-of-range ones": Go leaves the conversion of a float
+// that no int can hold implementation-defined (amd64: the smallest int, also for huge POSITIVE values), so a huge bound
+// silently turns into a negative one. Every conversion float→int of a runtime value is therefore reached only between
+// an upper and a lower comparison of that value with constants (a saturating helper, or a range test).
+func ruleC18FloatToInt(p *Prog, a *Anchors, r *Report) {
+	r.Begin("R-C18-F2I", "every float→int conversion of a runtime value is reached only after the value was compared with an upper and a lower constant bound (saturation): a huge number does not flip its sign", 1)
+	n := 0
+	reach := a.ExecReach()
+	creach := a.CompileReach()
+	for _, f := range p.inPkgFuncsSorted(p.allFuncSet()) {
+		if !reach[f] && !creach[f] && !reach[topLevel(f)] {
+			continue
+		}
+		k := 0
+		for _, b := range f.Blocks {
+			for _, in := range b.Instrs {
+				cv, ok := in.(*ssa.Convert)
+				if !ok {
+					continue
+				}
+				src, isS := cv.X.Type().Underlying().(*types.Basic)
+				dst, isD := cv.Type().Underlying().(*types.Basic)
+				if !isS || !isD || src.Info()&types.IsFloat == 0 || dst.Info()&types.IsInteger == 0 {
+					continue
+				}
+				if _, isC := cv.X.(*ssa.Const); isC {
+					continue
+				}
+				n++
+				k++
+				key := fmt.Sprintf("%s:convert#%d", p.FuncName(f), k)
+				bound := func(upper bool) bool {
+					return Guarded(in, func(c ssa.Value, pol bool) bool {
+						bo, ok := c.(*ssa.BinOp)
+						if !ok {
+							return false
+						}
+						x, y, op := bo.X, bo.Y, bo.Op
+						if _, isC := x.(*ssa.Const); isC {
+							// K op x  ==  x op' K
+							x, y = y, x
+							switch op {
+							case token.LSS:
+								op = token.GTR
+							case token.LEQ:
+								op = token.GEQ
+							case token.GTR:
+								op = token.LSS
+							case token.GEQ:
+								op = token.LEQ
+							}
+						}
+						if _, isC := y.(*ssa.Const); !isC || !(x == cv.X || p.VN(x) == p.VN(cv.X)) {
+							return false
+						}
+						switch op {
+						case token.LSS, token.LEQ: // x < K holds (pol) → upper bound
+							return pol == upper
+						case token.GTR, token.GEQ: // x > K holds (pol) → lower bound
+							return pol != upper
+						}
+						return false
+					})
+				}
+				up, lo := bound(true), bound(false)
+				if scaledLength(cv.X) {
+					r.Assume(key, p.InstrPos(in), "the operand is an int (a size) converted to float and scaled by a constant below 2 — a capacity hint; it leaves the int range only for sizes no buffer can have")
+					continue
+				}
+				if up && lo {
+					r.OK(key, p.InstrPos(in), "converted only between an upper and a lower constant bound")
+				} else {
+					r.Bad(key, p.InstrPos(in), "float→int conversion of %s without a range test (upper bound: %v, lower bound: %v): a value no int can hold converts to an arbitrary int (on amd64 the smallest one, so a huge positive slice bound, width or index becomes negative)", p.VN(cv.X), up, lo)
+				}
+			}
+		}
+	}
+	if n == 0 {
+		r.Trivial("none", "-", "no float→int conversion of a runtime value in engine code")
+	}
+}
+
+// floatToIntOperand: in converts a float to an integer — Go's conversion, or a call of a package helper that does
+// nothing else (one float parameter, one integer result, every return a constant or the conversion of the parameter:
+// a saturating converter). Returns the float operand.
+func floatToIntOperand(p *Prog, in ssa.Instruction) (ssa.Value, bool) {
+	switch x := in.(type) {
+	case *ssa.Convert:
+		tb, _ := x.Type().Underlying().(*types.Basic)
+		fb, _ := x.X.Type().Underlying().(*types.Basic)
+		if tb != nil && fb != nil && tb.Info()&types.IsInteger != 0 && fb.Info()&types.IsFloat != 0 {
+			return x.X, true
+		}
+	case *ssa.Call:
+		f := x.Common().StaticCallee()
+		if f == nil || !p.InPkg(f) || f.Blocks == nil || len(f.Params) != 1 || f.Signature.Results().Len() != 1 || !isFloatType(f.Params[0].Type()) {
+			return nil, false
+		}
+		conv := false
+		for _, ret := range returnsOf(f) {
+			switch rv := res(ret, 0).(type) {
+			case *ssa.Const:
+			case *ssa.Convert:
+				if rv.X != ssa.Value(f.Params[0]) {
+					return nil, false
+				}
+				conv = true
+			default:
+				return nil, false
+			}
+		}
+		if conv {
+			return x.Common().Args[0], true
+		}
+	}
+	return nil, false
+}
+
+// scaledLength: v is float64(<int value>) * <constant c, 0 <= c < 2>.
+func scaledLength(v ssa.Value) bool {
+	bo, ok := v.(*ssa.BinOp)
+	if !ok || bo.Op != token.MUL {
+		return false
+	}
+	x, y := bo.X, bo.Y
+	if _, isC := x.(*ssa.Const); isC {
+		x, y = y, x
+	}
+	k, isC := y.(*ssa.Const)
+	if !isC || k.Value == nil {
+		return false
+	}
+	f, _ := constant.Float64Val(constant.ToFloat(k.Value))
+	if f < 0 || f >= 2 {
+		return false
+	}
+	cv, ok := x.(*ssa.Convert)
+	if !ok {
+		return false
+	}
+	bt, _ := cv.X.Type().Underlying().(*types.Basic)
+	return bt != nil && bt.Info()&types.IsInteger != 0
+}
+
+// ruleC18ArgByValue: a filter whose argument is a number reads it with Integer()/Float(), which also parse the quoted
+// form; branching on the argument's Go kind on top of that (IsNumber …) makes `f:3` and `f:"3"` two different
+// arguments although both denote 3 (and the quoted form is the only way to write a negative one). Filters that have a
+// documented text mode for their argument (they also read it with String()) are a different matter and not judged.
+func ruleC18ArgByValue(p *Prog, a *Anchors, r *Report) {
+	r.Begin("R-C18-ARGVAL", "a filter that reads its argument only as a number decides by the argument's value, not by its Go kind: no IsNumber/IsInteger/IsFloat/IsString test of an argument that is otherwise only read with Integer()/Float()", 5)
+	names := make([]string, 0, len(a.FilterFuncs))
+	for n := range a.FilterFuncs {
+		names = append(names, n)
+	}
+	sort.Strings(names)
+	for _, name := range names {
+		f := a.FilterFuncs[name]
+		if f == nil || f.Blocks == nil || len(f.Params) < 2 {
+			continue
+		}
+		param := f.Params[len(f.Params)-1]
+		used := map[string]ssa.Instruction{}
+		for _, fn := range clusterOf(p, f, 0) {
+			for _, b := range fn.Blocks {
+				for _, in := range b.Instrs {
+					c, ok := in.(*ssa.Call)
+					if !ok || c.Common().StaticCallee() == nil || c.Common().IsInvoke() || len(c.Common().Args) == 0 {
+						continue
+					}
+					if stripLoad(c.Common().Args[0]) != ssa.Value(param) {
+						continue
+					}
+					if recv := c.Common().StaticCallee().Signature.Recv(); recv != nil {
+						used[c.Common().StaticCallee().Name()] = in
+					}
+				}
+			}
+		}
+		numeric := used["Integer"] != nil || used["Float"] != nil
+		if !numeric || used["String"] != nil {
+			continue
+		}
+		key := "filter " + name + ":argument"
+		var kind ssa.Instruction
+		for _, k := range []string{"IsNumber", "IsInteger", "IsFloat", "IsString"} {
+			if used[k] != nil {
+				kind = used[k]
+			}
+		}
+		if kind != nil {
+			r.Bad(key, p.InstrPos(kind), "the filter reads its argument as a number but also branches on the argument's Go kind: %s:3 and %s:\"3\" behave differently although both are read as 3", name, name)
+		} else {
+			r.OK(key, p.Pos(f.Pos()), "the numeric argument is judged by its value only")
+		}
 	}
 }
